@@ -31,7 +31,10 @@ def main():
         demo = os.path.join(d, "demo.py")
         if os.path.exists(demo):
             out["demo_clean_rc"] = sh(["/venv/bin/python", demo, wt], cwd=scratch, timeout=300)[0]
-        rc, o = sh(["git", "-C", wt, "apply", "--3way", os.path.abspath(os.path.join(d, "patch.diff"))])
+        if d.startswith("revert:"):
+            rc, o = sh(["git", "-C", wt, "-c", "user.name=x", "-c", "user.email=x@x", "revert", "-n"] + d[7:].split(","))
+        else:
+            rc, o = sh(["git", "-C", wt, "apply", "--3way", os.path.abspath(os.path.join(d, "patch.diff"))])
         out["applies"] = rc == 0
         if rc != 0:
             out["apply_err"] = o[-400:]
